@@ -503,6 +503,7 @@ pub fn run_c05_func(ctx: &Ctx) {
     for (t, fam) in [
         ("dns", mutate::dns_nested()),
         ("dhcp", mutate::dhcp_nested()),
+        ("dhcp", mutate::dhcp_long_split()),
         ("icmp6", mutate::icmp6_nested()),
         ("lldp", mutate::lldp_nested()),
     ] {
@@ -519,7 +520,7 @@ pub fn run_c05_func(ctx: &Ctx) {
     ctx.extra(
         "exhaustive_subclaims",
         serde_json::json!([format!(
-            "single-position boundary/truncation family of all seed packets plus the nested-length families (every EDNS option length 0..41, every DHCP option code x length 0..9, route prefix octets 0..255, hlen 0..255, message type 0..255, ND option type x length, LLDP TLV type x length): {} inputs enumerated completely",
+            "single-position boundary/truncation family of all seed packets plus the nested-length families (every EDNS option length 0..41, every DHCP option code x length 0..9, text and list options of 256..1180 octets split over several instances x 21 fills, route prefix octets 0..255, hlen 0..255, message type 0..255, ND option type x length, LLDP TLV type x length): {} inputs enumerated completely",
             total
         )]),
     );
